@@ -25,13 +25,16 @@ MANIFEST = {
             "(both_complete_transcripts_equal_or_bad_event, for every pair of flows and optional messages, 7 flows x 64 option sets "
             "per side); the hashed byte stream determines the message list (transcript_encoding_injective); every transcript-derived "
             "view coincides (complete_views_equal); sentinel write/check case analysis over all version triples "
-            "(no_downgrade_tls12plus, sentinel_no_false_alarm); FALLBACK_SCSV (fallback_scsv_enforced); HRR message_hash binds the "
+            "(no_downgrade_tls12plus, sentinel_no_false_alarm); FALLBACK_SCSV (fallback_scsv_enforced, and "
+            "fallback_scsv_enforced_before_resumption: the test precedes the resumption decision); HRR message_hash binds the "
             "first ClientHello (hrr_transcript_binds_first_hello); binders cover the truncated hello (binder_covers_truncated_hello, "
             "truncate_append_binders). Tie: model flow scripts, transcript byte streams, sentinel / SCSV / version-choice / HRR "
             "comparison functions compared with the live endpoints; an active MITM in the in-memory lab flips every byte of the hello "
             "flights (3 masks), drops / duplicates / swaps records, rewrites hellos with tlslite's own message classes, attempts "
             "version rollback, for SSLv3..TLS1.3 x RSA/DHE/ECDHE (+SRP, anon, client auth, HRR, ID/ticket/PSK resumption).",
-    "note": "Collision resistance and PRF/MAC unforgeability are the named bad events, not assumptions. Below TLS 1.2 downgrade "
+    "note": "The abbreviated (resumption) ServerHello carries no downgrade sentinel in the code (serverRandomTailResumed); "
+            "rollback of a resuming pair is stopped by the Finished MAC under the cached master secret (never completed in the "
+            "lab). Collision resistance and PRF/MAC unforgeability are the named bad events, not assumptions. Below TLS 1.2 downgrade "
             "protection is only the Finished MAC. Record protection is not modelled here (C02); message bodies, key schedule "
             "values and semantic checks are arbitrary functions of the local history in the model.",
     "technique": "Lean 4 reduction with explicit bad events + finite case analyses; live active-MITM differential and direct oracle",
@@ -126,6 +129,21 @@ def scenarios():
             S["range-%s-%s" % (VERNAME[cmax], VERNAME[smax])] = dict(
                 flow=None, opts=dict(), ver=min(cmax, smax), kind="cert", range=(cmax, smax),
                 cs=dict(minv=(3, 0), maxv=cmax, **kw), ss=dict(minv=(3, 0), maxv=smax, **kw), family="range")
+    # connection histories: full handshake that leaves a session (SessionCache / RFC 5077 ticket), a
+    # black-holed attempt, then a retry that OFFERS the session: in fallback mode (lower maximum,
+    # TLS_FALLBACK_SCSV) or honestly with the attacker rolling the resumption hello back
+    for how in ("id", "ticket"):
+        for cmax in [(3, 2), (3, 3), (3, 4)]:
+            for smax in [(3, 2), (3, 3), (3, 4)]:
+                if min(cmax, smax) > (3, 3):
+                    continue            # a TLS 1.3 pair keeps no <= 1.2 session
+                kw = dict(keyExchangeNames=["rsa"], cipherNames=["aes128"], macNames=["sha"],
+                          eccCurves=["secp256r1", "x25519"], keyShares=["secp256r1"])
+                skw = dict(kw, ticket=True) if how == "ticket" else kw
+                S["hist-%s-%s-%s" % (how, VERNAME[cmax], VERNAME[smax])] = dict(
+                    flow=None, opts=dict(), ver=min(cmax, smax), kind="cert", range=(cmax, smax), resume=how,
+                    history=how, cs=dict(minv=(3, 0), maxv=cmax, **kw), ss=dict(minv=(3, 0), maxv=smax, **skw),
+                    family="history")
     for name, sc in S.items():
         sc["name"] = name
         sc["optbits"] = "".join(str(int(bool(sc["opts"].get(k, 0)))) for k in OPT_NAMES)
@@ -596,6 +614,19 @@ def prime_session(sc):
     return {"session": L.client.conn.session, "cache": cache}
 
 
+def black_holed_attempt(sc, prime):
+    """the attacker swallows everything the server says: the client's attempt (offering its
+    session, at its real maximum version) goes nowhere"""
+    from harness import lab
+    cs = mk_settings(sc["cs"], "client", sc)
+    ss = mk_settings(sc["ss"], "server", sc)
+    L = lab.Lab()
+    L.link.filter = lambda d, data: b"" if d == "s2c" else data
+    start_endpoints(L, sc, cs, ss, prime)
+    L.run()
+    return [L.client.state, L.server.state]
+
+
 def trace_both(L, logs):
     from harness import lab
     lab.trace_messages(L.client.conn, logs["client"])
@@ -638,7 +669,10 @@ def run_case(case):
         setattr(cs, k, tuple(v) if isinstance(v, list) else v)
     for k, v in (case.get("ss_attr") or {}).items():
         setattr(ss, k, tuple(v) if isinstance(v, list) else v)
-    prime = prime_session(sc) if sc.get("resume") else None
+    prime = prime_session(sc) if sc.get("resume") and not case.get("no_session") else None
+    disrupted = None
+    if prime is not None and case.get("disrupt"):
+        disrupted = black_holed_attempt(sc, prime)
     L = lab.Lab()
     tam = case.get("tamper")
     att = Attacker2(tam) if isinstance(tam, list) else Attacker(tam)
@@ -658,6 +692,8 @@ def run_case(case):
         "c_exc": lab.exc_class(L.client.exc), "s_exc": lab.exc_class(L.server.exc),
         "c_msg": _exc_msg(L.client.exc), "s_msg": _exc_msg(L.server.exc),
         "ms": int((time.time() - t0) * 1000), "hooked": hooked["n"],
+        "disrupted": disrupted,
+        "c_resumed": bool(L.client.conn.resumed), "s_resumed": bool(L.server.conn.resumed),
         "c_ver": list(L.client.conn.version) if L.client.conn.version else None,
         "s_ver": list(L.server.conn.version) if L.server.conn.version else None,
     }
@@ -1066,6 +1102,38 @@ def rollback_cases(ctx, sc, lay):
     return cases
 
 
+def history_cases(ctx, sc):
+    """retries that offer the session of an earlier connection"""
+    cmax, smax = sc["range"]
+    v0 = min(cmax, smax)
+    cases = []
+    name = sc["name"]
+    cases.append({"scn": name, "kind": "hist-resume", "cls": "hello", "tamper": None, "want_wire": True, "disrupt": True})
+    for v in ALL_VERS:
+        if v > cmax:
+            continue
+        base = {"scn": name, "cls": "hello", "want_wire": True, "disrupt": True, "forced": list(v),
+                "cs_attr": {"maxVersion": v, "sendFallbackSCSV": True}}
+        cases.append(dict(base, kind="hist-fallback", tamper=None))
+        cases.append(dict(base, kind="hist-fallback-stripped",
+                          tamper={"op": "rewrite", "dir": "c2s", "rec": 0, "what": "ch:del_scsv"}))
+        # the same retry by a client that lost its session: full handshake path
+        cases.append(dict(base, kind="hist-fallback-nosession", tamper=None, no_session=True, disrupt=False))
+    for v in ALL_VERS:
+        if v >= v0:
+            continue
+        roll = {"op": "rewrite", "dir": "c2s", "rec": 0, "what": "ch:rollback", "to": list(v)}
+        cases.append({"scn": name, "kind": "hist-rollback", "cls": "hello", "tamper": roll, "want_wire": True,
+                      "forced": list(v), "disrupt": True})
+        # ... and the version put back in the ServerHello the client sees
+        back = {"op": "rewrite", "dir": "s2c", "rec": 0, "what": "sh:version", "to": list(min(v0, (3, 3)))}
+        cases.append({"scn": name, "kind": "hist-rollback+shversion", "cls": "hello", "tamper": [roll, back],
+                      "want_wire": True, "forced": list(v), "disrupt": True})
+    cases.append({"scn": name, "kind": "hist-scsv-inserted", "cls": "hello", "want_wire": True, "disrupt": True,
+                  "tamper": {"op": "rewrite", "dir": "c2s", "rec": 0, "what": "ch:add_scsv"}})
+    return cases
+
+
 def finished_cases(ctx, sc, base):
     """a cooperating faulty peer sends a Finished whose verify_data differs in one byte"""
     cases = []
@@ -1167,9 +1235,11 @@ class Judge(object):
                 hi = min(sc["range"])
                 got = tuple(res["c_view"]["version"])
                 cm = tuple((case.get("cs_attr") or {}).get("maxVersion", sc["range"][0]))
-                if got < min(cm, sc["range"][1]) or (kind.startswith("rollback") and got < hi):
-                    bad.append(("c04:downgrade-completed",
-                                "both endpoints support %s but completed at %s under rewriting (%s)" % (hi, got, kind)))
+                if got < min(cm, sc["range"][1]) or ("rollback" in kind and got < hi):
+                    key = "c04:resumption-no-downgrade-sentinel" if (res.get("c_resumed") and "rollback" in kind) \
+                        else "c04:downgrade-completed"
+                    bad.append((key, "both endpoints support %s but completed at %s%s (%s)"
+                                % (hi, got, " by resumption" if res.get("c_resumed") else " under rewriting", kind)))
         # enforcement of the downgrade sentinel (RFC 8446 4.1.3) and FALLBACK_SCSV (RFC 7507)
         if sc.get("range") and res.get("orig") and res["orig"]["s2c"]:
             cmax, smax = sc["range"]
@@ -1183,7 +1253,14 @@ class Judge(object):
                     want = b"DOWNGRD\x01"
                 elif smax >= (3, 3) and v < (3, 3):
                     want = b"DOWNGRD\x00"
-                if want is not None and tail != want:
+                abbreviated = bool(sc.get("history")) and not case.get("no_session") and \
+                    self._abbreviated(res["orig"]["s2c"])
+                if want is not None and tail != want and abbreviated:
+                    # the code writes the sentinel only in the full-handshake ServerHello; the abbreviated
+                    # one is protected by the Finished MAC alone (reported, and see c04:downgrade-completed)
+                    if report:
+                        self.ctx.count("observation:abbreviated-ServerHello-without-sentinel")
+                elif want is not None and tail != want:
                     bad.append(("c04:sentinel-not-written",
                                 "server with maxVersion %s negotiated %s but ServerHello.random ends in %s" % (smax, v, tail.hex())))
                 # what the client saw
@@ -1199,19 +1276,33 @@ class Judge(object):
                         bad.append(("c04:sentinel-not-enforced",
                                     "client with maxVersion %s received a ServerHello for %s carrying a downgrade sentinel "
                                     "and did not abort with illegal_parameter (%s)" % (cmax, vd, res["c_exc"])))
-            if kind in ("fallback", "scsv-inserted", "fallback-stripped") and res["fwd"]["c2s"]:
+            if ("fallback" in kind or "scsv" in kind) and res["fwd"]["c2s"]:
                 ch = self._client_hello(res["fwd"]["c2s"])
                 if ch is not None and 0x5600 in ch.cipher_suites:
                     offered = self._ch_max_version(ch)
                     if offered < smax and res["s_exc"] != "local_alert:86" and sh is not None:
                         bad.append(("c04:fallback-scsv-not-enforced",
                                     "server with maxVersion %s answered a ClientHello offering at most %s with "
-                                    "TLS_FALLBACK_SCSV (%s)" % (smax, offered, res["s_exc"])))
+                                    "TLS_FALLBACK_SCSV%s (%s)"
+                                    % (smax, offered, " by resuming the offered session" if res.get("s_resumed") or
+                                       (sc.get("history") and not case.get("no_session")) else "", res["s_exc"])))
         if kind == "honest" and not res["both"]:
             bad.append(("c04:honest-handshake-fails",
                         "the untouched handshake of %s does not complete: client %s / server %s"
                         % (case["scn"], res["c_exc"], res["s_exc"])))
         return bad
+
+    @staticmethod
+    def _abbreviated(records):
+        """the server's first flight is ServerHello [NewSessionTicket] CCS: no Certificate / ServerHelloDone"""
+        types = []
+        for r in records:
+            r = bytes.fromhex(r)
+            if r[0] == 20:
+                break
+            if r[0] == 22 and len(r) > 5:
+                types.append(r[5])
+        return bool(types) and types[0] == 2 and 14 not in types and 11 not in types
 
     def benign_field(self, case, res=None):
         t = case.get("tamper")
@@ -1332,7 +1423,8 @@ def range_correspond(J, case, res, lc):
         return
     cmax, smax = sc["range"]
     cmax = tuple((case.get("cs_attr") or {}).get("maxVersion", cmax))
-    ident = {"scn": case["scn"], "kind": case.get("kind"), "tamper": case.get("tamper"), "cs_attr": case.get("cs_attr")}
+    ident = {"scn": case["scn"], "kind": case.get("kind"), "tamper": case.get("tamper"), "cs_attr": case.get("cs_attr"),
+             "no_session": case.get("no_session")}
     # what the client put on the wire
     ch0 = J._client_hello(res["orig"]["c2s"])
     if ch0 is not None:
@@ -1362,6 +1454,34 @@ def range_correspond(J, case, res, lc):
     smin = tuple(sc["ss"]["minv"])
     sel = lc.ask("selver %d %d %d %d %d %d %s %s" % (smin[0], smin[1], smax[0], smax[1], ch.client_version[0],
                                                      ch.client_version[1], sversions_of(smax), ext))
+    if sc.get("history") and case.get("kind") in ("hist-resume", "hist-fallback", "hist-fallback-nosession",
+                                                  "hist-scsv-inserted", "hist-fallback-stripped"):
+        # order of the server's decisions: version, SCSV, then resumption.  The session the client
+        # offers here is valid (same suite, name, EMS), so the lookup succeeds whenever it is reached.
+        offered = not case.get("no_session")
+        if sc["history"] == "ticket":
+            te = ch.getExtension(ExtensionType.session_ticket)
+            offered = offered and te is not None and bool(te.ticket)
+        else:
+            offered = offered and bool(ch.session_id)
+        after = lc.ask("after %d %d %d %d %d %d %s %s %s %d" % (
+            smin[0], smin[1], smax[0], smax[1], ch.client_version[0], ch.client_version[1], sversions_of(smax), ext,
+            ",".join(str(x) for x in ch.cipher_suites), int(offered)))
+        if after.startswith("err:inappropriate_fallback"):
+            impl = "err:inappropriate_fallback" if res["s_exc"] == "local_alert:86" else \
+                ("abbreviated" if J._abbreviated(res["orig"]["s2c"]) else res["s_exc"])
+        elif after.startswith("ok"):
+            impl = "abbreviated" if J._abbreviated(res["orig"]["s2c"]) else \
+                ("full" if sh is not None else res["s_exc"])
+            after = after.split()[-1]
+        else:
+            impl = after
+        ctx.compared()
+        # a later local abort (the resumption block's own consistency checks: EtM / EMS / SNI of the
+        # session against an extension-less SSLv3 hello; suite selection) is past the point compared here
+        later = after in ("full", "abbreviated") and impl.startswith("local_alert") and impl != "local_alert:86"
+        if after != impl and not later:
+            ctx.disagree("serverAfterHello", ident, after, impl)
     if sel.startswith("err"):
         ctx.compared()
         if res["s_exc"] != "local_alert:70":
@@ -1382,8 +1502,9 @@ def range_correspond(J, case, res, lc):
     ctx.compared()
     if J._sh_version(sh) != v:
         ctx.disagree("serverSelectVersion", ident, sel, list(J._sh_version(sh)))
-    if v <= (3, 3) and not res.get("c_view", {}).get("resumed"):
-        t = lc.ask("tail %d %d %d %d 0000000000000000" % (smax[0], smax[1], v[0], v[1]))
+    if v <= (3, 3):
+        abbreviated = bool(sc.get("history")) and not case.get("no_session") and J._abbreviated(res["orig"]["s2c"])
+        t = lc.ask("%s %d %d %d %d 0000000000000000" % ("tailres" if abbreviated else "tail", smax[0], smax[1], v[0], v[1]))
         mcls = tail_class(bytes.fromhex(t))
         if mcls == "random" and t != "0000000000000000":
             mcls = "?"
@@ -1684,6 +1805,9 @@ def build_cases(ctx, J):
         lay = J.lay[name]
         base = J.base[name]
         prim = is_primary(name)
+        if sc.get("history"):
+            cases += history_cases(ctx, sc)
+            continue
         if sc.get("range"):
             cases += rollback_cases(ctx, sc, lay)
             cases.append({"scn": name, "kind": "honest-range", "cls": "hello", "tamper": None, "want_wire": True})
@@ -1708,13 +1832,16 @@ def judge_case(ctx, J, lc, case, res):
     sc = SC()[case["scn"]]
     t = case.get("tamper")
     kind = case.get("kind", "?")
-    ctx.case(key=(case["scn"], kind, tkey(t), tkey(case.get("hook")), tkey(case.get("cs_attr"))),
-             nontrivial=bool(res.get("applied") or res.get("hooked") or kind.startswith("fallback")),
+    ctx.case(key=(case["scn"], kind, tkey(t), tkey(case.get("hook")), tkey(case.get("cs_attr")), case.get("no_session")),
+             nontrivial=bool(res.get("applied") or res.get("hooked") or "fallback" in kind or kind.startswith("hist")),
              sample={"scenario": case["scn"], "tamper": t, "hook": case.get("hook"), "client": res["c_exc"],
                      "server": res["s_exc"], "both_complete": res["both"]} if case.get("id", 1) % 1499 == 0 else None)
     ctx.count("kind:" + kind)
     ctx.count("outcome:" + ("both-complete" if res["both"] else
                             "stall" if "stall" in (res["c_state"], res["s_state"]) else "abort"))
+    if kind.startswith("hist"):
+        ctx.count("%s -> %s" % (kind, "both complete%s" % (" (resumed)" if res.get("c_resumed") else "") if res["both"]
+                                else "client %s / server %s" % (res["c_exc"], res["s_exc"])))
     if not (res.get("applied") or res.get("hooked")) and t:
         ctx.count("tamper-not-applicable")
     found = J.oracle(case, res)
@@ -1735,7 +1862,10 @@ def run(ctx):
                 "successor / re-fragmented, hellos parsed with tlslite's classes and rewritten (versions, suites, groups, each "
                 "extension dropped / replaced / added, random, session id, selection in ServerHello/HRR), version rollback with "
                 "and without sentinel stripping for all cmax x smax in TLS1.1..1.3, FALLBACK_SCSV sent / stripped / inserted, "
-                "one byte of the peer's Finished changed; distinct = distinct (scenario, tamper); non-trivial = the tamper "
+                "one byte of the peer's Finished changed; connection histories (full handshake leaving a SessionCache entry / "
+                "RFC 5077 ticket, black-holed attempt, retry offering the session: fallback mode with SCSV at every lower "
+                "maximum, SCSV stripped / inserted, rollback of the resumption hello with and without restoring the version "
+                "in the ServerHello) for all cmax x smax; distinct = distinct (scenario, tamper); non-trivial = the tamper "
                 "changed bytes on the wire")
     ctx.assumptions = ["SHA-2/MD5/SHA-1 collision resistance and PRF/HMAC unforgeability enter the theorems as the named events "
                        "HashCollision / FinishedForgery, never as hypotheses",
